@@ -94,17 +94,40 @@ def pair_cfg(rnd, ga, gb, whole, multi, quick, target):
         k["MaxLoopsA"] = 3
         k["MaxLoopsB"] = 2 if quick else 3
         k["KindsA"], k["KindsB"] = {0}, {0}
-        k["PitchA"] = {rnd.choice([0, 1])} if ga <= gb else {rnd.choice([2, 4])}
-        k["PitchB"] = {rnd.choice([1, 2, 4])} if gb >= ga else {rnd.choice([0, 1])}
-        # further loops: A's from a 4x4 coordinate set inside the face, B's from B's own fine set
-        hx = set(rnd.sample(range(1, na), min(4, na - 1)))
-        hy = set(rnd.sample(range(1, na), min(4, na - 1)))
-        k.update({"HXsA": hx, "HYsA": hy, "HXsB": set(rnd.sample(sorted(xb), 4)) | {rnd.randint(0, nb)},
-                  "HYsB": set(rnd.sample(sorted(yb), min(4, len(yb))))})
-        sa, ha = nrects(xa, ya), nrects(hx, hy)
-        sb, hb = nrects(xb, yb), nrects(k["HXsB"], k["HYsB"])
-        est_a = sa + sa * ha * 0.5 + sa * ha * ha * 0.1
-        est_b = sb + sb * hb * 0.5 + (0 if quick else sb * hb * hb * 0.1)
+        coarse_pitch = {rnd.choice([0, 1])}
+        fine_pitch = {rnd.choice([1, 2, 4])}
+        k["PitchA"] = coarse_pitch if ga <= gb else fine_pitch
+        k["PitchB"] = fine_pitch if gb >= ga else coarse_pitch
+
+        def poly_coords(n, whole_):
+            # first loop: one or a few rectangles; further loops: 3x3 coordinates mostly inside it
+            lo = 0 if whole_ else rnd.randint(0, n // 4)
+            hi = n if whole_ else rnd.randint(n - n // 4, n)
+            inner = set(rnd.sample(range(lo + 1, hi), min(3, hi - lo - 1)))
+            return {lo, hi}, inner
+
+        xa, hxa = poly_coords(na, whole)
+        ya, hya = poly_coords(na, whole)
+        s = 2 ** abs(gb - ga)
+        if gb >= ga:
+            # B's coordinates: aligned with A's shell or holes, next to them, or free
+            allx, ally = sorted(xa | hxa), sorted(ya | hya)
+            xb = fine_coords(rnd, allx, s, nb, 3)
+            yb = fine_coords(rnd, ally, s, nb, 3)
+            hxb = fine_coords(rnd, allx, s, nb, 3)
+            hyb = fine_coords(rnd, ally, s, nb, 3)
+        else:
+            xb, hxb = poly_coords(nb, whole)
+            yb, hyb = poly_coords(nb, whole)
+            xa = fine_coords(rnd, sorted(xb | hxb), s, na, 2)
+            ya = fine_coords(rnd, sorted(yb | hyb), s, na, 2)
+            hxa = fine_coords(rnd, sorted(xb | hxb), s, na, 3)
+            hya = fine_coords(rnd, sorted(yb | hyb), s, na, 3)
+        k.update({"XsA": xa, "YsA": ya, "XsB": xb, "YsB": yb, "HXsA": hxa, "HYsA": hya, "HXsB": hxb, "HYsB": hyb})
+        sa, ha = nrects(xa, ya), nrects(hxa, hya)
+        sb, hb = nrects(xb, yb), nrects(hxb, hyb)
+        est_a = sa + sa * ha * 0.4 + sa * ha * ha * 0.08
+        est_b = sb + sb * hb * 0.4 + (0 if quick else sb * hb * hb * 0.08)
     est = max(1.0, est_a * est_b)
     k["ThinMod"] = max(1, int(round(est / target)))
     k["ThinRem"] = rnd.randrange(k["ThinMod"])
